@@ -63,6 +63,7 @@ pub struct Ctx {
     classes: Mutex<BTreeMap<String, ClassRec>>,
     cov: Mutex<Map<String, Value>>,
     samples: Mutex<Vec<(u64, Value)>>,
+    sample_threshold: std::sync::atomic::AtomicU64,
     assumptions: Mutex<Vec<String>>,
     machinery: Mutex<Vec<String>>,
     known: Vec<Known>,
@@ -71,6 +72,11 @@ pub struct Ctx {
 
 pub fn verif_dir() -> String {
     std::env::var("XSGV_DIR").unwrap_or_else(|_| "/verif".to_string())
+}
+
+/// where evidence and replay files go (XSGV_OUT redirects them, e.g. while trying mutants)
+pub fn out_dir() -> String {
+    std::env::var("XSGV_OUT").unwrap_or_else(|_| verif_dir())
 }
 
 pub fn mix(seed: u64, x: u64) -> u64 {
@@ -121,6 +127,7 @@ impl Ctx {
             classes: Mutex::new(BTreeMap::new()),
             cov: Mutex::new(Map::new()),
             samples: Mutex::new(Vec::new()),
+            sample_threshold: std::sync::atomic::AtomicU64::new(u64::MAX),
             assumptions: Mutex::new(Vec::new()),
             machinery: Mutex::new(Vec::new()),
             known,
@@ -203,13 +210,15 @@ impl Ctx {
             s.push((h, make()));
             s.sort_by_key(|x| x.0);
             s.truncate(KEEP);
+            if s.len() == KEEP {
+                self.sample_threshold
+                    .store(s[KEEP - 1].0, std::sync::atomic::Ordering::Relaxed);
+            }
         }
     }
 
     pub fn sample_hash_qualifies(&self, id: u64) -> bool {
-        let h = mix(self.seed, id);
-        let s = self.samples.lock().unwrap();
-        s.len() < 8 || h < s.last().map(|x| x.0).unwrap_or(u64::MAX)
+        mix(self.seed, id) < self.sample_threshold.load(std::sync::atomic::Ordering::Relaxed)
     }
 
     pub fn elapsed(&self) -> f64 {
@@ -235,7 +244,7 @@ impl Ctx {
             }
             unknown += rec.count;
             exit = 1;
-            let dir = format!("{}/replays/{}", self.verif_dir, self.prop);
+            let dir = format!("{}/replays/{}", out_dir(), self.prop);
             let _ = std::fs::create_dir_all(&dir);
             let path = format!("{}/{:016x}.json", dir, fnv(class));
             let body = json!({
@@ -286,7 +295,7 @@ impl Ctx {
             "wall_s": (self.start.elapsed().as_secs_f64() * 1000.0).round() / 1000.0,
             "violations": unknown,
         });
-        let dir = format!("{}/evidence", self.verif_dir);
+        let dir = format!("{}/evidence", out_dir());
         let _ = std::fs::create_dir_all(&dir);
         let path = format!("{}/{}.json", dir, self.prop);
         if let Err(e) = std::fs::write(&path, serde_json::to_string_pretty(&ev).unwrap() + "\n") {
